@@ -131,6 +131,8 @@ def render(l, rng=None, sep=","):
         f = [d, maptext(l["map"])]
     elif t == "%":
         f = [lo if l["loc"] else octal([0, 0]), l["_net"], maptext(l["map"])]
+        if l["map"] == 0 and (rng is None or rng.random() < 0.7):
+            f = f[:2]                   # the default map: no map id field at all
     else:
         raise ValueError(t)
     # optionally drop trailing empty fields (the format allows it)
